@@ -85,7 +85,10 @@ func (q rangeQuery) String() string {
 }
 
 func (q rangeQuery) CacheKey() uint64 {
-	return hash(q.prom.unsafeURI, q.Endpoint(), q.expr, q.r.Start.Format(time.RFC3339), q.r.End.Round(q.r.Step).Format(time.RFC3339), output.HumanizeDuration(q.r.Step))
+	// Two ranges with the same start and step return the same samples only if they cover
+	// the same number of evaluation points, so use that rather than the (rounded) end time.
+	points := strconv.FormatInt(int64(q.r.End.Sub(q.r.Start)/q.r.Step), 10)
+	return hash(q.prom.unsafeURI, q.Endpoint(), q.expr, q.r.Start.Format(time.RFC3339), points, output.HumanizeDuration(q.r.Step))
 }
 
 func (q rangeQuery) CacheTTL() time.Duration {
